@@ -31,6 +31,8 @@ CONSTANTS Reqs,             \* request ids
           DevAllocIgnoresBusy,      \* _alloc hands out busy indices
           DevPutOutsideLock,        \* _dispatch child: result queued before res_lock is taken
           DevDupKillsWatcher,       \* a duplicated result ends the result thread
+          DevNoSynthWithoutTimeout, \* _dispatch makes up a result for a silent child only
+                                    \* if the request has a timeout
           DevTargetIgnoresMissing,  \* missing exit code counted as success
           DevNoSeen,                \* master forgets raptor_seen
           DevEnvLeak                \* dispatcher does not restore the environment
@@ -40,11 +42,12 @@ ASSUME \A r \in Reqs : ValidDemand(Demand[r]) /\ (Mode[r] = ExeMode \/ KindOK(Ki
 VARIABLES st, reg, backlog, seen, mq, wq, cur, polled,
           cores, gpus, slots, pool, resq, wdead, mres, env, sout,
           runningOn, put, back, target, ec, visits,
-          cpc, ppc, lk, rdone, act     \* the dispatch process pair of a request (see below)
+          cpc, ppc, lk, rdone, act,    \* the dispatch process pair of a request (see below)
+          fate                         \* ghost: what really happened ("ok" | "failed")
 
 dvars == <<cpc, ppc, lk, rdone, act>>
 vars == <<st, reg, backlog, seen, mq, wq, cur, polled, cores, gpus, slots, pool, resq,
-          wdead, mres, env, sout, runningOn, put, back, target, ec, visits, dvars>>
+          wdead, mres, env, sout, runningOn, put, back, target, ec, visits, dvars, fate>>
 
 IsExe(r)  == Mode[r] = ExeMode
 NatRet(r) == IF Succeeds(Kind[r]) THEN "0" ELSE IF Mode[r] \in ProcModes THEN "3" ELSE "1"
@@ -63,6 +66,7 @@ Init ==
   /\ visits = [r \in Reqs |-> 0]
   /\ cpc = [r \in Reqs |-> "idle"] /\ ppc = [r \in Reqs |-> "idle"]
   /\ lk = [r \in Reqs |-> "free"] /\ rdone = [r \in Reqs |-> FALSE] /\ act = "none"
+  /\ fate = [r \in Reqs |-> "none"]
 
 (* ------------------------------------------------------------------------ *)
 (* scheduler hand-off (_schedule_incoming, control_cb)                      *)
@@ -76,14 +80,14 @@ SchedIn(r) ==
      THEN /\ mq' = Append(mq, r) /\ st' = [st EXCEPT ![r] = "mq"] /\ UNCHANGED backlog
      ELSE /\ backlog' = Append(backlog, r) /\ st' = [st EXCEPT ![r] = "backlog"] /\ UNCHANGED mq
   /\ UNCHANGED <<reg, seen, wq, cur, polled, cores, gpus, slots, pool, resq, wdead, mres,
-                 env, sout, runningOn, put, back, target, ec, visits, dvars>>
+                 env, sout, runningOn, put, back, target, ec, visits, dvars, fate>>
 
 Register ==
   /\ reg = "no" /\ reg' = "yes"
   /\ mq' = mq \o backlog /\ backlog' = <<>>
   /\ st' = [r \in Reqs |-> IF r \in SeqSet(backlog) THEN "mq" ELSE st[r]]
   /\ UNCHANGED <<seen, wq, cur, polled, cores, gpus, slots, pool, resq, wdead, mres,
-                 env, sout, runningOn, put, back, target, ec, visits, dvars>>
+                 env, sout, runningOn, put, back, target, ec, visits, dvars, fate>>
 
 \* the master is gone: what was kept for it is failed
 Unregister ==
@@ -92,7 +96,7 @@ Unregister ==
   /\ backlog' = <<>>
   /\ st' = [r \in Reqs |-> IF r \in SeqSet(backlog) THEN "failed" ELSE st[r]]
   /\ UNCHANGED <<seen, mq, wq, cur, polled, cores, gpus, slots, pool, resq, wdead, mres,
-                 env, sout, runningOn, put, back, target, ec, visits, dvars>>
+                 env, sout, runningOn, put, back, target, ec, visits, dvars, fate>>
 
 (* ------------------------------------------------------------------------ *)
 (* master                                                                   *)
@@ -109,7 +113,7 @@ Dispatch(r) ==
           /\ st' = [st EXCEPT ![r] = "wq"]
           /\ UNCHANGED seen
   /\ UNCHANGED <<reg, backlog, cur, polled, cores, gpus, slots, pool, resq, wdead, mres,
-                 env, sout, runningOn, put, back, target, ec, dvars>>
+                 env, sout, runningOn, put, back, target, ec, dvars, fate>>
 
 Back(r, e) ==
   /\ back' = [back EXCEPT ![r] = @ + 1]
@@ -124,6 +128,7 @@ LocalDone(r, e) ==
   /\ Back(r, e)
   /\ UNCHANGED <<reg, backlog, seen, mq, wq, cur, polled, cores, gpus, slots, pool, resq,
                  wdead, mres, env, sout, runningOn, put, visits, dvars>>
+  /\ fate' = [fate EXCEPT ![r] = IF e = "0" THEN "ok" ELSE "failed"]
 
 \* a result taken from the result queue
 Result(r) ==
@@ -131,7 +136,7 @@ Result(r) ==
                       /\ mres' = mres \ {x}
                       /\ Back(r, x.ec)
   /\ UNCHANGED <<reg, backlog, seen, mq, wq, cur, polled, cores, gpus, slots, pool, resq,
-                 wdead, env, sout, runningOn, put, visits, dvars>>
+                 wdead, env, sout, runningOn, put, visits, dvars, fate>>
 
 (* ------------------------------------------------------------------------ *)
 (* worker                                                                   *)
@@ -141,7 +146,7 @@ Take(r) ==
   /\ wq' = Tail(wq) /\ cur' = r /\ polled' = FALSE
   /\ st' = [st EXCEPT ![r] = "held"]
   /\ UNCHANGED <<reg, backlog, seen, mq, cores, gpus, slots, pool, resq, wdead, mres,
-                 env, sout, runningOn, put, back, target, ec, visits, dvars>>
+                 env, sout, runningOn, put, back, target, ec, visits, dvars, fate>>
 
 CodeFits(r) == DevAllocIgnoresBusy \/ FitsOcc(cores, gpus, Demand[r])
 CodeAlloc(r) == IF DevAllocIgnoresBusy
@@ -153,7 +158,7 @@ Wait ==
   /\ cur # "none" /\ ~CodeFits(cur) /\ ~polled
   /\ polled' = TRUE
   /\ UNCHANGED <<st, reg, backlog, seen, mq, wq, cur, cores, gpus, slots, pool, resq, wdead,
-                 mres, env, sout, runningOn, put, back, target, ec, visits, dvars>>
+                 mres, env, sout, runningOn, put, back, target, ec, visits, dvars, fate>>
 
 Start(r) ==
   /\ cur = r /\ CodeFits(r)
@@ -164,7 +169,7 @@ Start(r) ==
   /\ pool' = pool \cup {r} /\ cur' = "none"
   /\ st' = [st EXCEPT ![r] = "run"]
   /\ UNCHANGED <<reg, backlog, seen, mq, wq, polled, resq, wdead, mres, env, sout,
-                 put, back, target, ec, visits, dvars>>
+                 put, back, target, ec, visits, dvars, fate>>
 
 \* allocation succeeded, the process could not be started: release, report
 SpawnFails(r) ==
@@ -180,6 +185,7 @@ SpawnFails(r) ==
   /\ st' = [st EXCEPT ![r] = "mres"]
   /\ UNCHANGED <<reg, backlog, seen, mq, wq, polled, pool, resq, wdead, env, sout,
                  runningOn, back, target, ec, visits, dvars>>
+  /\ fate' = [fate EXCEPT ![r] = "failed"]
 
 (* ---- the dispatch process of a request ---------------------------------- *)
 (* DefaultWorker._dispatch (parent) and its nested _worker_proc (child).     *)
@@ -197,11 +203,20 @@ TmoRes(r) == [r |-> r, ret |-> "1", n |-> 2]
 EnvAfter(r) == IF DevEnvLeak THEN During(env, Kind[r], Mode[r]) ELSE env
 Queued(r) == [st EXCEPT ![r] = IF @ = "run" THEN "resq" ELSE @]
 
+Silent(r) == Kind[r] = "die"          \* the child ends without reporting
+PayFate(r) == IF Succeeds(Kind[r]) THEN "ok" ELSE "failed"
+
+\* no timeout: the parent waits for the child; a child which ended without a
+\* result gets one made up by the parent (exit code 1)
 Finish(r) ==
   /\ st[r] = "run" /\ ~Micro(r)
-  /\ resq' = resq \cup {NatRes(r)}
-  /\ st' = Queued(r)
-  /\ env' = EnvAfter(r) /\ sout' = sout
+  /\ IF Silent(r) /\ DevNoSynthWithoutTimeout
+     THEN /\ st' = [st EXCEPT ![r] = "lost"] /\ UNCHANGED resq
+     ELSE /\ resq' = resq \cup {IF Silent(r) THEN TmoRes(r) ELSE NatRes(r)}
+          /\ st' = Queued(r)
+  /\ fate' = [fate EXCEPT ![r] = PayFate(r)]
+  /\ env' = IF Silent(r) THEN env ELSE EnvAfter(r)
+  /\ sout' = sout
   /\ UNCHANGED <<reg, backlog, seen, mq, wq, cur, polled, cores, gpus, slots, pool, wdead,
                  mres, runningOn, put, back, target, ec, visits, dvars>>
 
@@ -211,24 +226,26 @@ DUnch == UNCHANGED <<reg, backlog, seen, mq, wq, cur, polled, cores, gpus, slots
 PStart(r) ==
   /\ st[r] = "run" /\ Micro(r) /\ ppc[r] = "idle" /\ act = "none"
   /\ act' = r /\ ppc' = [ppc EXCEPT ![r] = "join"] /\ cpc' = [cpc EXCEPT ![r] = "ready"]
-  /\ DUnch /\ UNCHANGED <<st, resq, env, lk, rdone>>
+  /\ DUnch /\ UNCHANGED <<fate, st, resq, env, lk, rdone>>
 
 \* the payload runs; the child arrives at its first shared operation
 CRun(r) ==
   /\ cpc[r] = "ready"
-  /\ cpc' = [cpc EXCEPT ![r] = IF DevPutOutsideLock THEN "put" ELSE "wlock"]
-  /\ env' = EnvAfter(r)
-  /\ DUnch /\ UNCHANGED <<st, resq, ppc, lk, rdone, act>>
+  /\ cpc' = [cpc EXCEPT ![r] = IF Silent(r) THEN "done"
+                                ELSE IF DevPutOutsideLock THEN "put" ELSE "wlock"]
+  /\ env' = IF Silent(r) THEN env ELSE EnvAfter(r)
+  /\ DUnch /\ UNCHANGED <<fate, st, resq, ppc, lk, rdone, act>>
 
 CLock(r) ==
   /\ cpc[r] = "wlock" /\ lk[r] = "free"
   /\ lk' = [lk EXCEPT ![r] = "c"]
   /\ cpc' = [cpc EXCEPT ![r] = IF DevPutOutsideLock THEN "set" ELSE "put"]
-  /\ DUnch /\ UNCHANGED <<st, resq, env, ppc, rdone, act>>
+  /\ DUnch /\ UNCHANGED <<fate, st, resq, env, ppc, rdone, act>>
 
 CPut(r) ==
   /\ cpc[r] = "put"
   /\ resq' = resq \cup {NatRes(r)} /\ st' = Queued(r)
+  /\ fate' = [fate EXCEPT ![r] = PayFate(r)]
   /\ cpc' = [cpc EXCEPT ![r] = IF DevPutOutsideLock THEN "wlock" ELSE "set"]
   /\ DUnch /\ UNCHANGED <<env, ppc, lk, rdone, act>>
 
@@ -236,18 +253,18 @@ CSet(r) ==
   /\ cpc[r] = "set"
   /\ rdone' = [rdone EXCEPT ![r] = TRUE] /\ lk' = [lk EXCEPT ![r] = "free"]
   /\ cpc' = [cpc EXCEPT ![r] = "done"]
-  /\ DUnch /\ UNCHANGED <<st, resq, env, ppc, act>>
+  /\ DUnch /\ UNCHANGED <<fate, st, resq, env, ppc, act>>
 
 \* join(timeout) returns: the child ended or the timeout expired
 PJoin(r) ==
   /\ ppc[r] = "join"
   /\ ppc' = [ppc EXCEPT ![r] = "wlock"]
-  /\ DUnch /\ UNCHANGED <<st, resq, env, cpc, lk, rdone, act>>
+  /\ DUnch /\ UNCHANGED <<fate, st, resq, env, cpc, lk, rdone, act>>
 
 PLock(r) ==
   /\ ppc[r] = "wlock" /\ lk[r] = "free"
   /\ lk' = [lk EXCEPT ![r] = "p"] /\ ppc' = [ppc EXCEPT ![r] = "check"]
-  /\ DUnch /\ UNCHANGED <<st, resq, env, cpc, rdone, act>>
+  /\ DUnch /\ UNCHANGED <<fate, st, resq, env, cpc, rdone, act>>
 
 PCheck(r) ==
   /\ ppc[r] = "check"
@@ -255,17 +272,18 @@ PCheck(r) ==
      THEN /\ lk' = [lk EXCEPT ![r] = "free"] /\ ppc' = [ppc EXCEPT ![r] = "exit"]
           /\ act' = "none"
      ELSE /\ ppc' = [ppc EXCEPT ![r] = "kill"] /\ UNCHANGED <<lk, act>>
-  /\ DUnch /\ UNCHANGED <<st, resq, env, cpc, rdone>>
+  /\ DUnch /\ UNCHANGED <<fate, st, resq, env, cpc, rdone>>
 
 PKill(r) ==
   /\ ppc[r] = "kill"
   /\ cpc' = [cpc EXCEPT ![r] = IF @ = "done" THEN @ ELSE "killed"]
   /\ ppc' = [ppc EXCEPT ![r] = "put2"]
-  /\ DUnch /\ UNCHANGED <<st, resq, env, lk, rdone, act>>
+  /\ DUnch /\ UNCHANGED <<fate, st, resq, env, lk, rdone, act>>
 
 PPut2(r) ==
   /\ ppc[r] = "put2"
   /\ resq' = resq \cup {TmoRes(r)} /\ st' = Queued(r)
+  /\ fate' = [fate EXCEPT ![r] = IF @ = "none" THEN "failed" ELSE @]
   /\ lk' = [lk EXCEPT ![r] = "free"] /\ ppc' = [ppc EXCEPT ![r] = "exit"] /\ act' = "none"
   /\ DUnch /\ UNCHANGED <<env, cpc, rdone>>
 
@@ -290,7 +308,7 @@ Deliver(r, n) ==
         ELSE /\ wdead' = DevDupKillsWatcher
              /\ UNCHANGED <<pool, cores, gpus, runningOn, mres, put, st>>
   /\ UNCHANGED <<reg, backlog, seen, mq, wq, cur, polled, slots, env, sout,
-                 back, target, ec, visits, dvars>>
+                 back, target, ec, visits, dvars, fate>>
 
 Done == \A r \in Reqs : st[r] \in {"out", "failed"}
 Terminated == Done /\ UNCHANGED vars
@@ -337,6 +355,8 @@ InvResultOnce == \A r \in Reqs : /\ put[r] <= 1 /\ back[r] <= 1
                                  /\ (st[r] = "out" /\ ~IsExe(r) => put[r] = 1)
 \* TargetFromExit
 InvTarget     == \A r \in Reqs : st[r] = "out" => target[r] = TargetOf(ec[r])
+\* truthfulness at the master: DONE exactly for what really succeeded
+InvTruth      == \A r \in Reqs : st[r] = "out" => ((target[r] = "DONE") <=> (fate[r] = "ok"))
 \* Routing
 WorkerStates  == {"wq", "held", "run", "resq", "mres", "lost"}
 InvRouting    == \A r \in Reqs :
